@@ -286,6 +286,14 @@ def check_notify(eng, run):
         run.ob("C09.notify", f"{fn.cls.name}.{fn.name}", ok, unwrap_sites=len(an.unwrap_sites), path_conditions=[sorted(f) for _, f in an.unwrap_sites][:2])
 
 
+def _created_and_cleared(root, body, var):
+    """(the statement that binds `var` to ssl.create_default_context(), the statement `var.options &= ~OP_IGNORE_UNEXPECTED_EOF`)"""
+    created = next((s for s in body if isinstance(s, ast.Assign) and "create_default_context" in ast.unparse(s.value)), None)
+    cleared = next((n for n in ast.walk(root) if isinstance(n, ast.AugAssign) and isinstance(n.op, ast.BitAnd) and "OP_IGNORE_UNEXPECTED_EOF" in ast.unparse(n.value)
+                    and isinstance(n.value, ast.UnaryOp) and isinstance(n.value.op, ast.Invert) and ast.unparse(n.target) == f"{var}.options"), None)
+    return created, cleared
+
+
 def check_ctx(eng, run):
     db = eng.db
     facts = {}
@@ -293,13 +301,28 @@ def check_ctx(eng, run):
         fn = db.fn(q)
         ok = False
         why = "the default TLS context no longer clears OP_IGNORE_UNEXPECTED_EOF: on OpenSSL 3 a truncated stream would be reported as a clean end-of-stream"
+        cleared = None
+        scope_root = None
         for iff in own_nodes(fn.node):
             if isinstance(iff, ast.If) and "isinstance(ssl, bool)" in ast.unparse(iff.test):
-                created = next((s for s in iff.body if isinstance(s, ast.Assign) and "create_default_context" in ast.unparse(s.value)), None)
-                cleared = next((n for n in ast.walk(iff) if isinstance(n, ast.AugAssign) and isinstance(n.op, ast.BitAnd) and "OP_IGNORE_UNEXPECTED_EOF" in ast.unparse(n.value)
-                                and isinstance(n.value, ast.UnaryOp) and isinstance(n.value.op, ast.Invert) and ast.unparse(n.target) == "ssl.options"), None)
-                if created is not None and cleared is not None and created.lineno < cleared.lineno:
-                    ok = True
+                created, cleared_ = _created_and_cleared(iff, iff.body, "ssl")
+                if created is not None and cleared_ is not None and created.lineno < cleared_.lineno:
+                    ok, cleared, scope_root, scope_fn = True, cleared_, iff, fn
+                    continue
+                # the default context built by a helper of the repository: `ssl = _utils.create_default_client_ssl_context(...)`
+                for st in iff.body:
+                    if isinstance(st, ast.Assign) and len(st.targets) == 1 and isinstance(st.targets[0], ast.Name) and st.targets[0].id == "ssl" and isinstance(st.value, ast.Call):
+                        for h in eng.typer.call_targets(fn, st.value, dispatch=False):
+                            if not hasattr(h, "node") or isinstance(h.node, ast.Lambda):
+                                continue
+                            var = next((a.targets[0].id for a in own_nodes(h.node) if isinstance(a, ast.Assign) and len(a.targets) == 1 and isinstance(a.targets[0], ast.Name)
+                                        and "create_default_context" in ast.unparse(a.value)), None)
+                            if var is None:
+                                continue
+                            created, cleared_ = _created_and_cleared(h.node, h.node.body, var)
+                            returns_it = all(isinstance(r.value, ast.Name) and r.value.id == var for r in own_nodes(h.node) if isinstance(r, ast.Return))
+                            if created is not None and cleared_ is not None and created.lineno < cleared_.lineno and returns_it:
+                                ok, cleared, scope_root, scope_fn = True, cleared_, h.node, h
         # a caller-supplied context is never modified: every store to ssl.<attr> lies inside the isinstance(ssl, bool) branch
         outside = []
         for n in own_nodes(fn.node):
@@ -315,13 +338,13 @@ def check_ctx(eng, run):
         # are only `with` blocks (no nested condition such as `if not server_hostname:`)
         if ok:
             pm = {}
-            for p_ in ast.walk(fn.node):
+            for p_ in ast.walk(scope_fn.node):
                 for c_ in ast.iter_child_nodes(p_):
                     pm[c_] = p_
             x = cleared
             while x in pm:
                 x = pm[x]
-                if isinstance(x, ast.If) and "isinstance(ssl, bool)" in ast.unparse(x.test):
+                if x is scope_root:
                     break
                 if isinstance(x, (ast.If, ast.For, ast.While, ast.ExceptHandler, ast.Match)) or (isinstance(x, ast.Try) and cleared not in [n_ for b in x.body for n_ in ast.walk(b)]):
                     ok, why = False, f"the default TLS context is hardened (OP_IGNORE_UNEXPECTED_EOF cleared) only under `{ast.unparse(getattr(x, 'test', x))[:40]}`: on the other paths a truncated stream is reported as a clean end-of-stream"
